@@ -6,7 +6,13 @@ import os
 pid = sys.argv[1]
 n = int(sys.argv[2]) if len(sys.argv) > 2 else 2
 p = props[pid]
-RND = os.environ.get("SEED_ROUND", "")  # "" -> /tmp/wt, /tmp/seed_out ; "2" -> /tmp/wt2, /tmp/seed_out2
+RND = os.environ.get("SEED_ROUND", "")
+DIVERSITY = ""
+if os.environ.get("SEED_DIVERSE"):
+    DIVERSITY = ("Placement: the two changes must live in two DIFFERENT files, and at most one of them may touch "
+                 "src/vtlengine/duckdb_transpiler/Transpiler/__init__.py (prefer none). Look for places in Operators/, Interpreter/, AST/ (constructor, DAG, "
+                 "ASTString), API/, files/, Model/, DataTypes/, duckdb_transpiler/io/, duckdb_transpiler/sql/*.sql, duckdb_transpiler/Config/, "
+                 "duckdb_transpiler/Transpiler/structure_visitor.py / operators.py / sql_builder.py, ViralPropagation/ or Exceptions/ whose behaviour the property depends on.\n\n")  # "" -> /tmp/wt, /tmp/seed_out ; "2" -> /tmp/wt2, /tmp/seed_out2
 print(f"""You are helping test a verification effort for the open-source Python project vtlengine (an interpreter for the SDMX Validation and Transformation Language, VTL; it analyses scripts semantically and executes them by generating DuckDB SQL). Your job is to play the part of a plausible but subtly wrong code change ("seeded bug").
 
 ## The property that your change must break
@@ -34,6 +40,7 @@ Produce {n} DIFFERENT, independent changes (each one a separate patch against th
 - Python: /venv/bin/python (3.12, has pandas, duckdb, pysdmx, networkx, pytest). No network.
 - `import vtlengine` FAILS in this sandbox because the compiled C++ parser extension (vtlengine.AST.Grammar._cpp_parser.vtl_cpp_parser) is not built. Therefore VTL *text* cannot be parsed. Workaround: a stub helper at /root/vtlstub/vtlstub.py: `import sys; sys.path.insert(0, "/root/vtlstub"); import vtlstub; vtlstub.install("/tmp/wt{RND}/{pid}/src")` and then `import vtlengine` works (everything except parsing text). Build ASTs by hand from the dataclasses in vtlengine.AST (every node needs line_start, column_start, line_stop, column_stop) and drive the real pipeline. /root/vtlstub/example_pipeline.py shows `run_ast(ast, data_structures, datapoints, ...)`, which performs exactly the steps of vtlengine.API.run() after parsing (DAG analysis, semantic analysis with InterpreterAnalyzer, SQL transpilation, DuckDB execution) - read and reuse it (set env VTL_SRC=/tmp/wt{RND}/{pid}/src when running it, and make your demo honour VTL_SRC the same way so that it can be pointed at another checkout). Public API functions that do not need to parse a script (validate_dataset, sdmx conversion helpers, config functions, exception classes, data-type classes, DAG/interpreter/transpiler classes, SQL macros through duckdb, etc.) can be called directly after installing the stub. To see how the AST for a given VTL construct looks, read src/vtlengine/AST/ASTConstructorModules/*.py and src/vtlengine/AST/__init__.py.
 - Set VTL_TEMP_DIRECTORY to a scratch directory under /tmp if your demo needs the DuckDB session directory.
+- Never use `git stash` (the stash is shared by all worktrees of the repository and other people work in sibling worktrees): switch between pristine and changed only with `git apply <patch>` and `git checkout -- .`.
 - Do not install anything. Do not modify tests. Do not modify files under docs/ or tests/.
 
 ## Deliverables (write them to /tmp/seed_out{RND}/{pid}/)
@@ -44,4 +51,4 @@ For change k (k = 1..{n}):
 - /tmp/seed_out{RND}/{pid}/{pid}_k/notes.md    : 5-15 lines: what the change is, why it is a plausible mistake, what specific circumstance is needed for it to manifest, what you ran and observed (pristine vs changed, and the test-suite line before/after).
 After saving each patch, restore the worktree to pristine (`git -C /tmp/wt{RND}/{pid} checkout -- . && git -C /tmp/wt{RND}/{pid} clean -fdq`) and verify that the demo passes on pristine and fails after `git -C /tmp/wt{RND}/{pid} apply <patch>`; leave the worktree pristine at the end.
 
-Vary the changes: touch different files/functions/mechanisms for each one, and prefer subtle ones (an off-by-one, a dropped guard, a mis-ordered pair of operations, an "optimisation" that skips a step, a table entry changed in only one of two places that must agree, a cleanup moved out of a finally, ...). In your final answer give a 3-line summary per change.""")
+{DIVERSITY}Vary the changes: touch different files/functions/mechanisms for each one, and prefer subtle ones (an off-by-one, a dropped guard, a mis-ordered pair of operations, an "optimisation" that skips a step, a table entry changed in only one of two places that must agree, a cleanup moved out of a finally, ...). In your final answer give a 3-line summary per change.""")
